@@ -27,6 +27,11 @@ pub enum KeyForm {
     SingleOrigin,
     /// uncompressed hex key
     Uncompressed,
+    /// the key created just before this one (a single key), written with the other parity prefix:
+    /// a different key expression and a different EC point with the same x-only key
+    TwinOtherParity,
+    /// the key created just before this one (a single key), written uncompressed
+    TwinUncompressed,
     /// 32-byte x-only hex key
     XOnly,
 }
@@ -176,6 +181,19 @@ impl KeyUniverse {
                 };
                 (s, sk, (fpk, DerivationPath::from(vec![])))
             }
+            KeyForm::TwinOtherParity | KeyForm::TwinUncompressed => {
+                // same derivation as the previous key (which the generator made a single key)
+                let p: DerivationPath = vec![h(44), h(k.saturating_sub(1))].into();
+                let sk = root.master.derive_priv(secp, &p).unwrap().private_key;
+                if form == KeyForm::TwinOtherParity {
+                    let sk = sk.negate();
+                    let b = PublicKey::new(secp256k1::PublicKey::from_secret_key(secp, &sk));
+                    (format!("{}", b), sk, (fingerprint_of(&b.to_bytes()), DerivationPath::from(vec![])))
+                } else {
+                    let b = PublicKey::new_uncompressed(secp256k1::PublicKey::from_secret_key(secp, &sk));
+                    (format!("{}", b), sk, (fingerprint_of(&b.to_bytes()), DerivationPath::from(vec![])))
+                }
+            }
             KeyForm::SingleOrigin => {
                 let p: DerivationPath = vec![h(44), h(k)].into();
                 let sk = root.master.derive_priv(secp, &p).unwrap().private_key;
@@ -184,7 +202,7 @@ impl KeyUniverse {
             }
         };
         let spk = secp256k1::PublicKey::from_secret_key(secp, &secret);
-        let public = if form == KeyForm::Uncompressed { PublicKey::new_uncompressed(spk) } else { PublicKey::new(spk) };
+        let public = if form == KeyForm::Uncompressed || form == KeyForm::TwinUncompressed { PublicKey::new_uncompressed(spk) } else { PublicKey::new(spk) };
         let (xonly, _) = spk.x_only_public_key();
         self.keys.push(KeyInfo { id, owner, form, expr, secret, public, xonly, origin });
         id
@@ -217,6 +235,22 @@ impl KeyUniverse {
     pub fn unspendable_xonly(&self) -> String {
         // BIP341 NUMS point H
         "50929b74c1a04954b78b4b6035e97a5e078a5a0f28ec96d547bfee9ace803ac0".to_string()
+    }
+
+    /// Every key id that a serialized key (full or x-only) stands for: two ids when one key is in
+    /// the universe under two names.
+    pub fn keys_by_pubkey(&self) -> BTreeMap<Vec<u8>, Vec<usize>> {
+        let mut m: BTreeMap<Vec<u8>, Vec<usize>> = BTreeMap::new();
+        for k in &self.keys {
+            m.entry(k.public.to_bytes()).or_default().push(k.id);
+            m.entry(k.xonly.serialize().to_vec()).or_default().push(k.id);
+        }
+        m
+    }
+
+    /// Does the key set contain one key under two names (same x-only key / same EC point)?
+    pub fn has_twins(&self, ids: &[usize], tap: bool) -> bool {
+        ids.iter().enumerate().any(|(a, ka)| ids[..a].iter().any(|kb| ka != kb && if tap { self.keys[*ka].xonly == self.keys[*kb].xonly } else { self.keys[*ka].public.inner == self.keys[*kb].public.inner }))
     }
 
     pub fn key_by_pubkey(&self) -> BTreeMap<Vec<u8>, usize> {
